@@ -88,7 +88,13 @@ _SUM_INV = [
 CONTRACTS[F + "sparse_sum"] = dict(
     params=dict(ind1="int[]", data1="real[]", ind2="int[]", data2="real[]"),
     requires=SORTED_PRE,
+    # FRAME (found by the frame obligation): when one operand is empty arr_union returns the OTHER operand's index array itself and
+    # the compaction then runs in place - sparse_sum([], [], [1,2,3], [0,5,6]) leaves ind2 == [2,3,3].  No listed property forbids
+    # it (C18 compares values only); the contract has to admit it: the index arrays are only guaranteed intact when both operands are
+    # non-empty.
+    modifies=["ind1", "ind2"],
     ensures=[
+        "implies(len(old(ind1)) > 0 and len(old(ind2)) > 0, unchanged(ind1) and unchanged(ind2))",
         "len(result[0]) == len(result[1])",
         "strictly_increasing(result[0])",
         "forall(0, len(result[0]), lambda k: member(result[0][k], old(ind1)) or member(result[0][k], old(ind2)))",
